@@ -621,6 +621,10 @@ def classify(src, feats, err):
         return 'value-floordiv'
     if 'loopvar-after' in feats:
         return 'value-loopvar-after'
+    if 'loopvar-assign' in feats:
+        return 'value-loopvar-assign'
+    if 'chain3+' in feats:
+        return 'value-boolop-chain'
     return 'value-' + '+'.join(f for f in feats if f in ('for', 'while', 'break', 'continue'))
 
 
